@@ -1,7 +1,7 @@
 (* Concrete witnesses (vm_compute): the guards of the refinement theorems are necessary, and their hypotheses are
    satisfiable on non-trivial inputs.  Lemmas for Props/C01.v. *)
 From Delb.Base Require Import PyStr.
-From Delb.Tree Require Import ATree ITree AOps Encode.
+From Delb.Tree Require Import ATree ITree AOps AGuard Encode.
 From Delb.Conc Require Import CTree COps CGuard CEncode Refine.
 Local Open Scope N_scope.
 
@@ -44,10 +44,14 @@ Proof. repeat split; reflexivity. Qed.
 Lemma refuted_namespace :
   cwf w_dns /\ step_ok fall w_dns (OAppend 0 [SNode 1]) = false /\ differs fall w_dns (OAppend 0 [SNode 1]).
 Proof. split; [reflexivity|]. split; [reflexivity|]. unfold differs. vm_compute. discriminate. Qed.
-(* finding 29: under a filter hiding the text child, a string is bound over the existing text *)
-Lemma refuted_overwrite :
-  cwf w_text /\ step_ok ftag w_text (OAppend 0 [SStr 2 [120]]) = false /\ differs ftag w_text (OAppend 0 [SStr 2 [120]]).
-Proof. split; [reflexivity|]. split; [reflexivity|]. unfold differs. vm_compute. discriminate. Qed.
+(* finding 29 (repaired in the code, commit 53035ac): under a filter hiding the text child, a string goes in front of the
+   existing text instead of over it: the step meets its guard and refines the plain edit *)
+Lemma repaired_overwrite :
+  cwf w_text /\ step_ok ftag w_text (OAppend 0 [SStr 2 [120]]) = true /\
+  enc_world (fst (astep ftag (abs_world w_text) (OAppend 0 [SStr 2 [120]])))
+  = enc_world (abs_world (fst (cstep ftag w_text (OAppend 0 [SStr 2 [120]])))) /\
+  world_texts (abs_world (fst (cstep ftag w_text (OAppend 0 [SStr 2 [120]])))) = [(2, [120]); (1, [116; 101; 120; 116])].
+Proof. repeat split; vm_compute; reflexivity. Qed.
 (* finding 18: r[0] = "x" on a childless node reports success and changes nothing: the specification script itself
    (which follows the code) does not put the node at the stated position *)
 Lemma setitem_childless_noop :
